@@ -41,6 +41,7 @@ func runC15(c *an.Ctx) {
 	ruleS6(c)
 	ruleS7(c)
 	ruleS8(c)
+	ruleS9(c)
 }
 
 func relationFuncs(c *an.Ctx) []*ssa.Function {
@@ -535,13 +536,42 @@ func ruleS4(c *an.Ctx) {
 	// HandleSignal removes the lock
 	hs := c.NeedFunc(pkgCore, "(*Pipestance).HandleSignal")
 	if hs != nil {
-		md := &an.MustDo{Pred: func(in ssa.Instruction) bool {
+		isRemove := func(in ssa.Instruction) bool {
 			call := an.AsCall(in)
 			if call == nil || call.Common().StaticCallee() == nil || call.Common().StaticCallee().Name() != "remove" {
 				return false
 			}
 			return len(call.Common().Args) == 2 && an.IsConst(call.Common().Args[1], p.Const(pkgCore, "Lock"))
-		}, Depth: 2}
+		}
+		roFn := p.Func(pkgCore, "(*Pipestance).readOnly")
+		// every path removes the lock file, except on the edge where this object does not hold it
+		// (readOnly() is true exactly then: the lock is absent from this mrp's own view)
+		var removes func(fn *ssa.Function, d int) bool
+		removes = func(fn *ssa.Function, d int) bool {
+			if fn == nil || fn.Blocks == nil || d > 2 {
+				return false
+			}
+			w := an.Query{Fn: fn, Target: an.IsReturn,
+				Barrier: func(in ssa.Instruction) bool {
+					if isRemove(in) {
+						return true
+					}
+					if call := an.AsCall(in); call != nil {
+						if g := call.Common().StaticCallee(); g != nil && g != roFn && g.Pkg == fn.Pkg {
+							return removes(g, d+1)
+						}
+					}
+					return false
+				},
+				BarrierEdge: func(from, to *ssa.BasicBlock) bool {
+					return roFn != nil && an.EdgeHolds(from, to, func(r an.Rel) bool {
+						cl, ok := r.X.(*ssa.Call)
+						return ok && r.Op == token.ILLEGAL && r.Truth && cl.Call.StaticCallee() == roFn
+					})
+				}}.Find()
+			return w == nil
+		}
+		md := struct{ Fn func(*ssa.Function) bool }{Fn: func(f *ssa.Function) bool { return removes(f, 0) }}
 		c.Check("S4", "signal-removes-lock@(*Pipestance).HandleSignal", hs.Pos(), md.Fn(hs), "a handled termination signal must remove the lock file")
 	}
 	// mutating entry points return early when read-only
